@@ -147,7 +147,7 @@ func c10Serialize(ms []jmem, lay c10Layout) ([]byte, []int, [][]int) {
 	return s.buf.Bytes(), s.topEnd, s.innEnd
 }
 
-func raw(s string) jval { return jval{kind: "raw", raw: s} }
+func raw(s string) jval  { return jval{kind: "raw", raw: s} }
 func arr(v ...jval) jval { return jval{kind: "arr", arr: v} }
 func obj(m ...jmem) jval { return jval{kind: "obj", obj: m} }
 
